@@ -2676,7 +2676,7 @@ func (p *wat2X64Worker) buildFunc_ins(
 		fmt.Fprintf(w, "    # i64.clz\n")
 		fmt.Fprintf(w, "    mov   rax, qword ptr [rbp%+d]\n", sp0)
 		fmt.Fprintf(w, "    lzcnt rax, rax\n")
-		fmt.Fprintf(w, "    mov   dword ptr [rbp%+d], rax\n", ret0)
+		fmt.Fprintf(w, "    mov   qword ptr [rbp%+d], rax\n", ret0)
 		fmt.Fprintln(w)
 
 	case token.INS_I64_CTZ:
@@ -2686,7 +2686,7 @@ func (p *wat2X64Worker) buildFunc_ins(
 		fmt.Fprintf(w, "    # i64.ctz\n")
 		fmt.Fprintf(w, "    mov   rax, qword ptr [rbp%+d]\n", sp0)
 		fmt.Fprintf(w, "    tzcnt rax, rax\n")
-		fmt.Fprintf(w, "    mov   dword ptr [rbp%+d], rax\n", ret0)
+		fmt.Fprintf(w, "    mov   qword ptr [rbp%+d], rax\n", ret0)
 		fmt.Fprintln(w)
 
 	case token.INS_I64_POPCNT:
@@ -2696,7 +2696,7 @@ func (p *wat2X64Worker) buildFunc_ins(
 		fmt.Fprintf(w, "    # i64.popcnt\n")
 		fmt.Fprintf(w, "    mov    rax, qword ptr [rbp%+d]\n", sp0)
 		fmt.Fprintf(w, "    popcnt rax, rax\n")
-		fmt.Fprintf(w, "    mov    dword ptr [rbp%+d], rax\n", ret0)
+		fmt.Fprintf(w, "    mov    qword ptr [rbp%+d], rax\n", ret0)
 		fmt.Fprintln(w)
 
 	case token.INS_I64_ADD:
